@@ -815,9 +815,12 @@ func (p *Parser) evaluateImport() (evaluatedImport, error) {
 		return evaluatedImport{}, p.expectedError("import path", nextToken)
 	}
 	path := nextToken.Value()
-	nextToken = p.eat()
+	nextToken = p.peek()
 
-	if !slices.Contains([]lexer.TokenType{lexer.NEWLINE, lexer.EOF}, nextToken.Type()) {
+	// The end-of-file token must stay in place, it terminates the program.
+	if nextToken.Type() == lexer.NEWLINE {
+		p.eat()
+	} else if nextToken.Type() != lexer.EOF {
 		return evaluatedImport{}, p.expectedError("newline or end-of-file", nextToken)
 	}
 	return evaluatedImport{
